@@ -66,6 +66,13 @@ var workloads = map[string]workload{
 		Steps: []scen.Step{handle(1), pubw(1, "a"), inj("i1", 1), pubw(1, "b"), handle(2), pub(1, "c"), inj("i2", 1), op("cut"), pub(1, "d"), inj("i3", 0), pubw(1, "e"), handle(3), inj("i4", 1), op("cut"), pub(1, "f"), inj("i5", 1), pub(1, "g")}},
 	"in3": {Pre: []scen.Step{handle(1)}, Slow: true, OnC: [][]scen.InMsg{{{Tag: "m0", QoS: 1}, {Tag: "m1", QoS: 0}}},
 		Steps: []scen.Step{pub(1, "a"), op("cut"), pub(1, "b"), op("cut"), pub(2, "c")}},
+	// held PUBREL: the handler is registered / replaced between an inbound QoS 2 PUBLISH and its PUBREL
+	"in5": {OnC: [][]scen.InMsg{{{Tag: "m0", QoS: 2, Hold: true}}},
+		Steps: []scen.Step{pubw(1, "a"), handle(1), op("release"), pubw(1, "b"), {Op: "inject", In: &scen.InMsg{Tag: "i1", QoS: 2, Hold: true}}, pubw(1, "c"), handle(2), op("release"), pubw(1, "d"),
+			op("cut"), pubw(1, "e"), {Op: "inject", In: &scen.InMsg{Tag: "i2", QoS: 2, Hold: true}}, pubw(1, "f"), handle(3), op("release"), pub(1, "g")}},
+	// the handler is replaced continuously while connections come and go and messages arrive behind every CONNACK
+	"in6": {Pre: []scen.Step{handle(1)}, OnC: [][]scen.InMsg{{{Tag: "m0", QoS: 1}, {Tag: "m1", QoS: 0}}},
+		Steps: []scen.Step{op("hstorm"), pub(1, "a"), op("cut"), pub(1, "b"), inj("i1", 1), op("cut"), pub(1, "c"), op("cut"), pub(2, "d"), inj("i2", 0), op("cut"), pub(1, "e"), op("hstop"), pubw(1, "f")}},
 	"in4": {Pre: []scen.Step{handle(1)}, OnC: [][]scen.InMsg{{{Tag: "m0", QoS: 1}}},
 		Steps: []scen.Step{pubw(1, "a"), handle(0), inj("i1", 1), pubw(1, "b"), op("cut"), pubw(1, "c"), inj("i2", 1), pubw(1, "d"), handle(2), op("cut"), pub(1, "e"), inj("i3", 2), pub(1, "f")}},
 }
